@@ -69,6 +69,18 @@ def gen_scenario(rng, profile="mixed"):
     return lines
 
 
+def close_window_sweep(rng):
+    """a poller whose call loops twice - a wake-up byte left over from a signal that was already collected out of
+    the open batch makes the callback answer `readable` for an empty batch - with close() landing at every point
+    of the second round: between the loop's own look at the closed flag and `poll_pending`'s"""
+    out = []
+    for d1 in range(6, 40, 6):
+        for d2 in range(140, 460, 16):
+            out.append(["setup watch 10", "setup style B", "t0 deliver 10", "t1 deliver 10", "t2 poll", "t2 poll", "t2 poll", "t2 poll",
+                        "t3 close", "delay t1 %d" % d1, "delay t3 %d" % d2, "seed %d" % rng.randint(1, 2**31), "maxsteps 30000"])
+    return out
+
+
 EVENT = re.compile(r"^t(\d+) (H )?(load|store|cas|sys|cb) ")
 
 
